@@ -5,6 +5,7 @@ import hashlib
 import io
 import json
 import os as _real_os
+import random
 import re
 import tarfile
 import traceback
@@ -15,6 +16,7 @@ from ..runner import Divergence, Driver, Env, Outcome, Violation, diff_streams
 
 THEOREMS = [
     "C33_source_shape",
+    "C33_size_agnostic",
     "C33_classification_names",
     "C33_classification_total",
     "C33_manifest_consistent",
@@ -40,7 +42,12 @@ EXPLANATION = (
     "hostile archives (unknown/duplicate/non-file members, junk, missing manifest keys) and tampered/truncated blobs. "
     "Search: round-trip, wrong-password, clear-text-scan, structure and per-deployment decomposition monitors on the real code; "
     "a round-trip failure is classified by an independent look at the archive (tarfile + PyYAML/json + the stand-in cipher, not "
-    "the reader): which stored member is missing / unreadable / different / a proper prefix of the serialised input. Values the "
+    "the reader): which stored member is missing / unreadable / different / a proper prefix of the serialised input -- or that the "
+    "archive holds everything intact and only the reader lost it -- and by the size class of the members involved. Large members "
+    "(secret values, spec fields, annotations of about 64 KiB, 1 MiB, 2 MiB and exactly at / one byte above / well above every "
+    "integer of the backup modules that could be a size bound, re-read on every run; PEM-like text, one unbroken token, 2/3/4-byte "
+    "characters that YAML escapes, folded prose, thousands of small keys) go through writer, reader, model and monitors on every "
+    "tier; C33_size_agnostic pins that the archive layer has no length test, bounded read or size constant. Values the "
     "reader hands back are canonicalised totally (non-str keys, dates, bytes), and a scenario the harness cannot finish is "
     "reported with its input instead of ending the run."
 )
@@ -269,7 +276,124 @@ def pw_class(pw: str | None) -> str:
 # backups: real writer / reader versus the model
 
 
+# ---- large values: described in the case by shape / size / seed, expanded here (a replay file stays a few hundred bytes)
+
+KIB, MIB = 1024, 1024 * 1024
+BIG_SHAPES = ["pem", "ascii", "latin", "cjk", "emoji", "words", "mixed", "map"]
+_BIG_CACHE: dict[tuple, Any] = {}
+
+
+def _cut_utf8(s: str, n: int) -> str:
+    """longest prefix of s with at most n UTF-8 bytes"""
+    b = s.encode("utf-8")
+    if len(b) <= n:
+        return s
+    return b[:n].decode("utf-8", "ignore")
+
+
+def big_text(shape: str, n: int, seed: int = 0) -> str:
+    """Deterministic, cheap text of (at most, and within 3 bytes of) n UTF-8 bytes.
+    pem: concatenated certificate-like blocks (64-character base64 lines, so many newlines); ascii: one unbroken token;
+    latin / cjk / emoji: 2- / 3- / 4-byte characters only (yaml.dump without allow_unicode escapes every one of them);
+    words: prose with spaces (yaml folds it); mixed: lines of all of the above."""
+    key = (shape, n, seed)
+    if key in _BIG_CACHE:
+        return _BIG_CACHE[key]
+    h = hashlib.sha256(f"big:{shape}:{seed}".encode()).hexdigest()
+    if shape == "pem":
+        import base64
+
+        lines: list[str] = []
+        i = 0
+        total = 0
+        while total < n:
+            if i % 22 == 0:
+                ln = "-----BEGIN CERTIFICATE-----"
+            elif i % 22 == 21:
+                ln = "-----END CERTIFICATE-----"
+            else:
+                ln = base64.b64encode(hashlib.sha384(f"{seed}:{i}".encode()).digest()).decode()
+            lines.append(ln)
+            total += len(ln) + 1
+            i += 1
+        t = "\n".join(lines) + "\n"
+    elif shape == "ascii":
+        t = h * (n // len(h) + 1)
+    elif shape == "latin":
+        blk = "éàüñøßçêîõåæðþÿĀ"[int(h[0], 16):] + "éàüñøßçêîõåæðþÿĀ"
+        t = blk * (n // (2 * len(blk)) + 1)
+    elif shape == "cjk":
+        blk = "日本語の設定値と鍵証明書漢字"[int(h[0], 16) % 7:] + "日本語の設定値"
+        t = blk * (n // (3 * len(blk)) + 1)
+    elif shape == "emoji":
+        blk = "".join(chr(0x1F600 + (int(h[i], 16) * 3 + i) % 64) for i in range(16))
+        t = blk * (n // (4 * len(blk)) + 1)
+    elif shape == "words":
+        blk = "lorem ipsum dolor sit amet consectetur adipiscing elit " + h[:9] + " sed do eiusmod tempor. "
+        t = blk * (n // len(blk) + 1)
+    elif shape == "mixed":
+        blk = (h[:40] + "\n  indented: line #not a comment\n- dash 'quote' \"dq\"\n\tTab\n" + "ünï©ødé 日本語 🚀\n" + "key: value\n\n")
+        t = blk * (n // len(blk.encode()) + 1)
+    else:
+        raise ValueError("big shape " + shape)
+    t = _cut_utf8(t, n)
+    if t[-1:] in (" ", "\t"):  # keep the tail unambiguous for the eye; no influence on the rules
+        t = t[:-1] + "."
+    _BIG_CACHE.clear()  # one entry: the same value is asked for again by the decomposition and the replay only
+    _BIG_CACHE[key] = t
+    return t
+
+
+def big_map(n: int, seed: int = 0) -> dict[str, str]:
+    """many small entries (an .env file with thousands of lines) of about n bytes altogether"""
+    m: dict[str, str] = {}
+    i = 0
+    total = 0
+    while total < n:
+        k, v = "ENV_%06d" % i, "value-%d-%d-abcdefghijklmnopqrstuvwxyz0123456789" % (seed, i)
+        m[k] = v
+        total += len(k) + len(v)
+        i += 1
+    return m
+
+
+def apply_big(case: dict, deps: list[dict], secrets: dict) -> None:
+    for b in case.get("big") or []:
+        i = b["dep"]
+        if not (0 <= i < len(deps)):
+            continue
+        shape, n, seed, key = b["shape"], int(b["bytes"]), int(b.get("seed", 0)), b.get("key", "BIG")
+        val: Any = big_map(n, seed) if shape == "map" else big_text(shape, n, seed)
+        if b["at"] == "secret":
+            m = secrets.setdefault(eff_name(case["deps"][i]), {})
+            if shape == "map":
+                m.update(val)
+            else:
+                m[key] = val
+        elif b["at"] == "spec":
+            if not isinstance(deps[i].get("spec"), dict):
+                deps[i]["spec"] = {}
+            deps[i]["spec"][key] = val
+        elif b["at"] in ("annotation", "label"):
+            md = deps[i].setdefault("metadata", {"namespace": case["ns"]})
+            md.setdefault("annotations" if b["at"] == "annotation" else "labels", {})[key] = val if shape != "map" else json.dumps(val)
+
+
+def big_bytes(case: dict) -> int:
+    return sum(int(b["bytes"]) for b in case.get("big") or [])
+
+
+def size_class(n: int) -> str:
+    return "<64KiB" if n < 64 * KIB else "64KiB..1MiB" if n <= MIB else "1MiB..2MiB" if n <= 2 * MIB else ">2MiB"
+
+
 def build_inputs(case: dict) -> tuple[list[dict], dict, dict | None]:
+    deps, secrets, gens = _build_small(case)
+    apply_big(case, deps, secrets)
+    return deps, secrets, gens
+
+
+def _build_small(case: dict) -> tuple[list[dict], dict, dict | None]:
     deps = []
     for d in case["deps"]:
         cr: dict[str, Any] = {"apiVersion": "deploy.llamaindex.ai/v1", "kind": "LlamaDeployment"}
@@ -299,6 +423,22 @@ def untar(data: bytes) -> list[tuple[str, bytes]]:
     return res
 
 
+_LOAD_MEMO: dict[bytes, Any] = {}
+
+
+def yload(I: Impl, b: bytes) -> Any:
+    """yaml.safe_load for the harness's own look at a member; a large member is parsed once per scenario (the canonical
+    form for the model and the stored-member diagnosis both need it), exceptions are not remembered"""
+    if len(b) < 64 * KIB:
+        return I.yaml.safe_load(b)
+    k = hashlib.sha1(b).digest()
+    if k not in _LOAD_MEMO:
+        if len(_LOAD_MEMO) >= 4:
+            _LOAD_MEMO.clear()
+        _LOAD_MEMO[k] = I.yaml.safe_load(b)
+    return _LOAD_MEMO[k]
+
+
 def sym_of_real(I: Impl, data: bytes, pw: str | None, calls: list[bytes], toks: Tokens) -> list[int]:
     """Canonicalise one member of a *writer-produced* archive, by content, with the real json/yaml and the shim."""
     try:
@@ -321,12 +461,12 @@ def sym_of_real(I: Impl, data: bytes, pw: str | None, calls: list[bytes], toks: 
                 plain = I.open_ct(pw, salt, nonce, data[len(salt) + len(nonce):])
                 if plain is not None:
                     try:
-                        obj = I.yaml.safe_load(plain)
+                        obj = yload(I, plain)
                     except Exception:
                         break
                     return sym_blob(pw, salt, nonce, [1, toks.find(obj)])
     try:
-        obj = I.yaml.safe_load(data)
+        obj = yload(I, data)
     except Exception:
         return [7] + list(data)
     return [1, toks.find(obj)]
@@ -365,6 +505,8 @@ def run_backup(I: Impl, case: dict, out: Outcome, ops: list[str], impl: list[str
     out.count("backup:" + ("wf" if wf else "illformed"))
     out.count("pw:" + pw_class(pw))
     out.count(f"deps:{len(deps)}")
+    for b in case.get("big") or []:
+        out.count(f"big:{b['at']}:{b['shape']}:{size_class(int(b['bytes']))}")
     try:
         data = I.with_urandom(script, lambda: I.archive.create_backup_archive(
             [json.loads(json.dumps(c)) for c in deps], {k: dict(v) for k, v in secrets.items()}, case["ns"], case["ts"], pw,
@@ -382,6 +524,8 @@ def run_backup(I: Impl, case: dict, out: Outcome, ops: list[str], impl: list[str
     ops.append("|".join(["write", pw_field(pw), rnd, cps(case["ts"]), cps(case["ns"]), gen_field, sec_field, dep_field]))
     ctx.append(case)
     sym_members = [(n, sym_of_real(I, b, pw, calls, toks)) for n, b in real_members]
+    if real_members:
+        out.count("largest_member:" + size_class(max(len(b) for _n, b in real_members)))
     impl.append(err if err is not None else show_members(sym_members))
     if err is not None:
         out.violations.append(Violation(f"C33/writer_raises[{err}]", f"create_backup_archive raised {err}", case))
@@ -462,7 +606,7 @@ def stored_diagnosis(I: Impl, case: dict, deps: list[dict], secrets: dict, gens:
             bad.append((member, piece, "missing", f"no member {member!r} in the archive"))
             return
         try:
-            obj = I.yaml.safe_load(b) if fmt == "yaml" else json.loads(b)
+            obj = yload(I, b) if fmt == "yaml" else json.loads(b)
             verdict = "ok" if canon(obj) == canon(x) else "differs"
             shown = f"loads as {obj!r:.160}"
         except Exception as e:
@@ -501,6 +645,10 @@ def stored_diagnosis(I: Impl, case: dict, deps: list[dict], secrets: dict, gens:
     return bad
 
 
+def _brief(entry: tuple) -> tuple:
+    return tuple(x if not isinstance(x, str) or len(x) <= 200 else x[:110] + f"...<{len(x)} characters>..." + x[-50:] for x in entry)
+
+
 def monitor_backup(I: Impl, case: dict, deps: list[dict], secrets: dict, gens: dict | None, data: bytes,
                    real_members: list[tuple[str, bytes]], results: dict[str, Any], out: Outcome,
                    calls: list[bytes] | None = None) -> None:
@@ -527,6 +675,10 @@ def monitor_backup(I: Impl, case: dict, deps: list[dict], secrets: dict, gens: d
     kind, r = results.get(repr(pw), ("missing", None))
     if kind != "ok":
         fact, detail = stored_fact(("cr", "secret", "generation"))
+        largest = max((len(b) for _n, b in real_members), default=0)
+        if largest >= 64 * KIB:
+            fact += f",member={size_class(largest)}"
+            detail += f" (largest member: {largest} bytes)"
         out.violations.append(Violation(f"C33/roundtrip[read_fails:{r},pw={pc}{fact}]",
                                         f"archive written with password class {pc} cannot be read back with the same password: {r}{detail}", case))
     else:
@@ -541,9 +693,31 @@ def monitor_backup(I: Impl, case: dict, deps: list[dict], secrets: dict, gens: d
                     "resource" if [g[1] for g in got] != [x[1] for x in exp] else
                     "secret" if [g[2] for g in got] != [x[2] for x in exp] else "generation")
             fact, detail = stored_fact({"resource": ("cr",), "secret": ("secret",), "generation": ("generation",)}.get(what, ("cr", "secret", "generation")))
-            diff = next(((g, x) for g, x in zip(got, exp) if g != x), (got, exp))
+            # classifying facts, all from the inputs and an independent look at the archive: which deployments are affected,
+            # is the piece gone or different, how large are the members those deployments were stored in
+            gd, xd = {g[0]: g for g in got}, {x[0]: x for x in exp}
+            affected = sorted(n for n in set(gd) | set(xd) if gd.get(n) != xd.get(n))
+            mine = [(m, len(b)) for m, b in real_members if any(m.startswith(n + ".") for n in affected)]
+            largest = max((sz for _m, sz in mine), default=0)
+            if not detail and not any(v[0] == "?" for v in stored_bad):
+                fact += ",stored=intact"
+                detail = (" -- the archive itself holds every backed-up piece intact (independent look with tarfile + PyYAML/json"
+                          + ("" if pw is None else " + the stand-in cipher") + "); members of the affected deployment(s): "
+                          + ", ".join(f"{m}={sz} bytes" for m, sz in mine[:8]))
+            if what == "entry_count":
+                fact += ",restored=" + ("fewer" if len(got) < len(exp) else "more")
+            elif what in ("secret", "generation"):
+                k = 2 if what == "secret" else 3
+                if any(n in gd and n in xd and gd[n][k] is None and xd[n][k] is not None for n in affected):
+                    fact += ",restored=none"
+            if largest >= 64 * KIB:
+                fact += f",member={size_class(largest)}"
+            if len(got) != len(exp):
+                diff = ([g[0] for g in got], [x[0] for x in exp])
+            else:
+                diff = next(((_brief(g), _brief(x)) for g, x in zip(got, exp) if g != x), (got, exp))
             out.violations.append(Violation(f"C33/roundtrip[{what},pw={pc}{fact}]",
-                                            f"restored entries differ from what was backed up ({what}): got {diff[0]!r:.400} expected {diff[1]!r:.400}{detail}", case))
+                                            f"restored entries differ from what was backed up ({what}): got {diff[0]!r:.600} expected {diff[1]!r:.600}{detail}", case))
         m = r.manifest
         if (m.namespace, m.timestamp, m.deployment_count, m.version) != (case["ns"], case["ts"], len(deps), 1):
             out.violations.append(Violation(f"C33/roundtrip[manifest,pw={pc}]", f"manifest fields not restored: {m!r}", case))
@@ -868,6 +1042,113 @@ def gen_backup(rng: Any, wf: bool = True) -> dict:
             "rnd_seed": rng.randrange(10 ** 6), "rnd_mode": rng.choice(["hash"] * 8 + ["zero", "ff"])}
 
 
+# ---- large members
+
+FIXED_SIZES = [64 * KIB, MIB, 2 * MIB]
+MAX_BIG = 4 * MIB  # nothing larger is built (a size constant beyond this is noted, not chased)
+NONASCII_BYTES = {"latin": 2, "cjk": 3, "emoji": 4}
+INFLATING = ["latin", "cjk", "emoji", "mixed", "pem"]  # shapes whose YAML form is larger than their data
+
+
+def member_overhead(I: Impl, shape: str, encrypted: bool) -> int:
+    """bytes the stored member has beyond the data of a one-key secret {"BIG": <shape text>} for non-inflating shapes
+    (measured with PyYAML on a short sample, not assumed), plus the framing of an encrypted member"""
+    probe = big_text(shape, 4096, 0)
+    over = len(I.yaml.dump({"BIG": probe}, default_flow_style=False).encode()) - len(probe.encode())
+    if encrypted:
+        e = I.gen["e"]
+        over += e["saltLength"] + e["nonceLength"] + e["tagLength"]
+    return over
+
+
+def big_sizes(rng: Any, hints: list[int]) -> int:
+    """one data size: around a fixed mark, around a size constant of the source, or a fraction of one (for inflating shapes)"""
+    marks = FIXED_SIZES + [h for h in hints if h <= MAX_BIG] * 3
+    c = rng.choice(marks)
+    r = rng.random()
+    if r < 0.3:
+        return max(1, c + rng.choice([-1, 0, 1, 2, -2, 7, -44, 44, -45, 45]))
+    if r < 0.65:
+        return max(1, c + rng.randint(-c // 16, c // 16))
+    if r < 0.85:
+        return max(1, rng.randint(c // 4, c))  # below the mark: only the inflated YAML form can be above it
+    return min(MAX_BIG, rng.randint(c, 2 * c))
+
+
+def gen_big_backup(rng: Any, hints: list[int]) -> dict:
+    c = gen_backup(rng, wf=True)
+    while not c["deps"]:
+        c = gen_backup(rng, wf=True)
+    c["deps"] = c["deps"][:3]
+    keep = {eff_name(d) for d in c["deps"]}
+    c["secrets"] = {k: v for k, v in c["secrets"].items() if k in keep}
+    c["read_pws"] = c["read_pws"][:2]
+    big = []
+    for _ in range(1 if rng.random() < 0.8 else 2):
+        at = rng.choice(["secret"] * 5 + ["spec"] * 3 + ["annotation"])
+        n = big_sizes(rng, hints)
+        shape = rng.choice(BIG_SHAPES)
+        if shape == "map" and n > MIB + MIB // 4:
+            shape = "ascii"  # thousands of small YAML scalars are slow to load: keep that shape around 1 MiB and below
+        if n < MIB // 2 and rng.random() < 0.5:
+            shape = rng.choice(INFLATING)
+        if shape in NONASCII_BYTES and any(b["shape"] in NONASCII_BYTES for b in big):
+            shape = rng.choice(["pem", "ascii", "words"])
+        if shape in NONASCII_BYTES:
+            # PyYAML escapes / unescapes character by character (some microseconds each): at most ~300 000 such characters,
+            # whose escaped form is 1.2 .. 3 MB -- the member is beyond every mark although the data is not
+            n = min(n, 300_000 * NONASCII_BYTES[shape])
+        if big and n > MIB:
+            break
+        big.append({"at": at, "dep": rng.randrange(len(c["deps"])), "key": rng.choice(["ca-bundle.crt", "NOTES", "config", "prompt", "BIG"]),
+                    "shape": shape, "bytes": n, "seed": rng.randrange(1000)})
+    c["big"] = big
+    return c
+
+
+def big_corpus(I: Impl, hints: list[int], notes: list[str]) -> list[dict]:
+    """Large members that run on every run (quick tier included): the witness file, the fixed marks, and -- when the backup
+    modules contain integers that could be size bounds -- members exactly at, one byte above and well above each of them."""
+    def bk(deps: list[str], secrets: dict, pw: Any, read_pws: list, big: list, **kw: Any) -> dict:
+        return dict({"kind": "backup", "deps": [{"name": n, "spec": {"image": f"registry/{n}:latest", "projectId": "proj-1"}} for n in deps],
+                     "secrets": secrets, "gens": {n: 3 + i for i, n in enumerate(deps)}, "ns": "default", "ts": "2025-01-01T00:00:00+00:00",
+                     "pw": pw, "read_pws": read_pws, "rnd_seed": 11, "big": big}, **kw)
+
+    res = [json.load(open(_real_os.path.join(_real_os.path.dirname(_real_os.path.dirname(__file__)), "corpus", "c33_large_member.json")))["payload"]["case"]]
+    res += [
+        # a deployment set in which one secret holds 280 000 two-byte characters (560 KB; YAML escapes them to > 1 MiB), encrypted
+        bk(["web", "gateway", "worker"], {"web": {"API_KEY": "S3CR3T000021x0000"}, "gateway": {"TOKEN": "S3CR3T000022x0001"}}, "correct horse",
+           ["correct horse", "correct horsf"], [{"at": "secret", "dep": 2, "key": "NOTES", "shape": "latin", "bytes": 560000, "seed": 1}]),
+        # a resource with a long prompt in its spec (1.2 MB of prose): the whole deployment must come back
+        bk(["web", "agent"], {"agent": {"API_KEY": "S3CR3T000023x0001"}}, None, [None],
+           [{"at": "spec", "dep": 1, "key": "systemPrompt", "shape": "words", "bytes": MIB + 150 * KIB, "seed": 2}]),
+        # around 64 KiB: a secret of 64 KiB + 1 in one token, a 3-byte-character annotation of 70 KB, 200 KB of mixed
+        # content (quotes, '#', tabs, blank lines, non-ASCII) in the spec, encrypted
+        bk(["app"], {"app": {"API_KEY": "S3CR3T000024x0000"}}, "pw", ["pw"],
+           [{"at": "secret", "dep": 0, "key": "BLOB", "shape": "ascii", "bytes": 64 * KIB + 1, "seed": 3},
+            {"at": "annotation", "dep": 0, "key": "description", "shape": "cjk", "bytes": 70000, "seed": 3},
+            {"at": "spec", "dep": 0, "key": "initScript", "shape": "mixed", "bytes": 200000, "seed": 3}]),
+        # beyond 2 MiB: a certificate bundle of 2 MiB + 1, clear, next to a secret made of thousands of small entries (128 KiB)
+        bk(["bulk", "envs"], {"bulk": {"API_KEY": "S3CR3T000025x0000"}}, None, [None],
+           [{"at": "secret", "dep": 0, "key": "bundle.pem", "shape": "pem", "bytes": 2 * MIB + 1, "seed": 4},
+            {"at": "secret", "dep": 1, "shape": "map", "bytes": 128 * KIB, "seed": 4}]),
+    ]
+    usable = [h for h in hints if h <= MAX_BIG]
+    for h in hints:
+        if h > MAX_BIG:
+            notes.append(f"C33: size constant {h} in the backup modules is beyond the largest member this check builds ({MAX_BIG})")
+    for h in usable[:3]:
+        for enc in (False, True):
+            over = member_overhead(I, "ascii", enc)
+            for delta in ((0, 1) if not enc else (1,)):
+                res.append(bk(["app"], {}, "pw" if enc else None, ["pw" if enc else None],
+                              [{"at": "secret", "dep": 0, "key": "BIG", "shape": "ascii", "bytes": max(1, h + delta - over), "seed": 5}],
+                              note=f"member of {h}{'+1' if delta else ''} bytes (size constant {h} found in the source)"))
+        res.append(bk(["app"], {"app": {"API_KEY": "S3CR3T000026x0000"}}, None, [None],
+                      [{"at": "spec", "dep": 0, "key": "config", "shape": "pem", "bytes": min(MAX_BIG, h + h // 8), "seed": 6}]))
+    return res
+
+
 def gen_hostile(rng: Any) -> dict:
     base = rng.choice(["web", "db", "x", "my-secret", "a.b", "dir/app", "X"])
     full_manifest = {"version": 1, "timestamp": "t", "namespace": "ns", "deployment_count": rng.randint(0, 3), "encrypted": rng.random() < 0.5}
@@ -1026,7 +1307,9 @@ def run(env: Env) -> Outcome:
     out = Outcome()
     out.rule = ("backups: 0-5 deployments (name pools with suffix look-alikes, boundary lengths, random DNS-1035 labels; ill-formed "
                 "names in a separate stream) x JSON-like resources (free-text labels / display-name / description annotations incl. non-ASCII) x secret maps (marker + Unicode/control/YAML-special strings) x "
-                "generation maps x passwords (none, empty, ASCII, Unicode, 5000 chars) x reader passwords; hostile archives; "
+                "generation maps x passwords (none, empty, ASCII, Unicode, 5000 chars) x reader passwords; large members (one or two "
+                "values of 32 KiB..4 MiB per backup: around 64 KiB / 1 MiB / 2 MiB and around size constants of the source; shapes pem, "
+                "ascii, latin, cjk, emoji, words, mixed, map; in secrets, spec, annotations; 8 on quick, 41 on thorough); hostile archives; "
                 "encrypt/decrypt blobs (plain, wrong password, bit flips, truncations, junk). non-trivial = backup with a secret or "
                 "generation / hostile archive read successfully / blob decrypted; distinct by canonical case")
     I = Impl()
@@ -1038,6 +1321,16 @@ def run(env: Env) -> Outcome:
         cases.append(env.replay["payload"]["case"])
     cases += corpus()
     rng = env.rng
+    # large members: sizes relative to whatever integers of the backup modules could be size bounds (re-read now) + fixed marks
+    hints = gen_archive.size_hints(out.notes)
+    out.count(f"size_hints:{len(hints)}")
+    cases += big_corpus(I, hints, out.notes)
+    n_big = 3 if env.tier == "quick" else 36
+    _st = rng.getstate()
+    brng = random.Random(rng.getrandbits(64))  # a stream of its own, derived from env.rng without advancing it
+    rng.setstate(_st)
+    for _ in range(n_big * (2 if env.deep else 1)):
+        cases.append(gen_big_backup(brng, hints))
     for _ in range(env.budget(450, 9000)):
         cases.append(gen_backup(rng, wf=True))
     for _ in range(env.budget(120, 2400)):
@@ -1052,7 +1345,10 @@ def run(env: Env) -> Outcome:
         mark = (len(ops), len(impl), len(ctx))
         try:
             run_case(I, c, out, ops, impl, ctx)
-            if c.get("kind") == "backup" and (dec_done < n_dec or (ci == 0 and env.replay is not None)) and c["deps"] and names_wf(I, c):
+            replayed = ci == 0 and env.replay is not None
+            # (the per-piece decomposition repeats every dump / load: left out for members beyond 256 KiB, which M1 covers)
+            if c.get("kind") == "backup" and (dec_done < n_dec or replayed) and c["deps"] and names_wf(I, c) \
+                    and (big_bytes(c) <= 256 * KIB or replayed):
                 monitor_decomposition(I, c, out)
                 dec_done += 1
         except Exception as e:
